@@ -598,20 +598,31 @@ func voBehaviour(t *testing.T, tr *vkTrace, dir string, v voVec) {
 	rdDead := rerr != nil
 	perTrack := make([][]voPage, nt)
 	unknown := 0
-	for i, p := range pages {
-		rdState, same := "none", false
+	// the application reads the whole file first, keeping every page it is given, and looks at them afterwards
+	type rdPage struct {
+		state   string
+		payload []byte
+		gran    uint64
+		serial  uint32
+	}
+	rdPages := make([]rdPage, len(pages))
+	for i := range pages {
+		rdPages[i].state = "none"
 		if !rdDead {
 			payload, hdr, e := rd.ParseNextPage()
 			switch {
 			case e == nil:
-				rdState = "ok"
-				same = bytes.Equal(payload, p.payload) && hdr.GranulePosition == p.gran && hdr.Serial == p.serial
+				rdPages[i] = rdPage{state: "ok", payload: payload, gran: hdr.GranulePosition, serial: hdr.Serial}
 			case errors.Is(e, io.EOF):
-				rdState, rdDead = "eof", true
+				rdPages[i].state, rdDead = "eof", true
 			default:
-				rdState, rdDead = "err", true
+				rdPages[i].state, rdDead = "err", true
 			}
 		}
+	}
+	for i, p := range pages {
+		rdState := rdPages[i].state
+		same := rdState == "ok" && bytes.Equal(rdPages[i].payload, p.payload) && rdPages[i].gran == p.gran && rdPages[i].serial == p.serial
 		kind := "other"
 		switch {
 		case bytes.HasPrefix(p.payload, []byte("OpusHead")):
